@@ -258,6 +258,8 @@ impl Qcow2Header {
     pub const MAX_L1_SIZE: u32 = 32_u32 << 20;
     pub const MAX_REFCOUNT_TABLE_SIZE: u32 = 8_u32 << 20;
     pub const V2_HEADER_LENGTH: u32 = 72;
+    /// byte offset of the compression type field (version 3, optional)
+    const COMPRESSION_TYPE_OFFSET: u32 = 104;
 
     pub fn from_buf(header_buf: &[u8]) -> Qcow2Result<Self> {
         let bincode = bincode::DefaultOptions::new()
@@ -294,6 +296,14 @@ impl Qcow2Header {
             header.compatible_features = 0;
             header.autoclear_features = 0;
             header.compression_type = 0;
+        }
+
+        // Only deflate is implemented. A compression type without its
+        // incompatible feature bit (refused below) is still not deflate;
+        // the field exists only if the header is long enough to hold it.
+        if header.header_length > Self::COMPRESSION_TYPE_OFFSET && header.compression_type != 0 {
+            let t = header.compression_type;
+            return Err(format!("qcow2 compression type {t} is not supported").into());
         }
 
         let refcount_order = header.refcount_order;
